@@ -528,7 +528,7 @@ def _special(case: dict, env: core.Env) -> None:
     w = case["which"]
     env.cover("special", w)
     if w == "random_seed":
-        s1, s2 = r.randint(0, 10**6), r.randint(0, 10**6)
+        s1, s2 = r.choice([0, 1, r.randint(0, 10**6)]), r.randint(0, 10**6)
         a = core.run_stmt(cur, f"SELECT RANDOM({s1}) AS X")
         b = core.run_stmt(cur, f"SELECT RANDOM({s1}) AS X")
         c = core.run_stmt(cur, f"SELECT RANDOM({s2}) AS X")
@@ -690,6 +690,17 @@ def _special(case: dict, env: core.Env) -> None:
             env.witness("C10/alias-in-join/rejected", o["exc"]["msg"][:200])
         elif o["rows"] != [(k, (k * 7) % 10)]:
             env.witness("C10/alias-in-join/value", f"{o['rows']}")
+        # an alias defined inside a CTE / derived table is not an alias of the outer select: ID there is a plain column
+        v = (k * 7) % 10
+        want2 = [(100 + v, v)] if 1 <= v <= 40 else []
+        for shape, sql in (("cte", f"WITH c AS (SELECT V + 100 AS KX FROM NUMS WHERE ID = {k}) SELECT c.KX, n2.ID FROM c JOIN NUMS n2 ON KX = n2.ID + 100"),
+                           ("derived", f"SELECT d.KX, n2.ID FROM (SELECT V + 100 AS KX FROM NUMS WHERE ID = {k}) d JOIN NUMS n2 ON KX = n2.ID + 100")):
+            o2 = core.run_stmt(cur, sql)
+            env.count("cmp_value")
+            if not o2["ok"]:
+                env.witness(f"C10/alias-in-join/rejected/{shape}", f"{sql}: {o2['exc']['msg'][:200]}")
+            elif o2["rows"] != want2:
+                env.witness(f"C10/alias-in-join/inner-alias-taken-for-outer/{shape}", f"{sql} -> {o2['rows']} expected {want2}")
         env.nontrivial(("alias", k))
     elif w == "nulls":
         for e in ("REGEXP_REPLACE(NULL, 'a', 'b')", "REGEXP_SUBSTR(NULL, 'a')", "SPLIT(NULL, ',')", "TRIM(NULL)", "TO_DATE(NULL)", "TO_TIMESTAMP(NULL::VARCHAR)",
